@@ -13,7 +13,7 @@ from ref import voigt_ref as VR
 PID = "C10"
 RULE = (
     "full cross product assemblage {(ol),(en),(ol,en),(en,ol)} x phase-fraction letters x texture "
-    "kind (all identity / cube letters / generic letters; distinct letters per grain, per mineral "
+    "kind (all identity / cube letters / generic letters / generic letters held fixed over the snapshots; distinct letters per grain, per mineral "
     "and per snapshot) x grain count x volume-vector letter (rolled per snapshot and mineral) x "
     "snapshot count x stiffness set (built-in default argument / fixed dense triclinic SPD pair / the same pair in whole GPa held as int64 and as float32 arrays / "
     "seeded dense SPD pair, both through a StiffnessTensors instance with modified attributes); "
@@ -49,7 +49,7 @@ ASMS = ["ol", "en", "ol,en", "en,ol"]
 FR1 = ["1.0"]
 FR2_Q = ["0.7,0.3", "0.5,0.5", "0.3,0.7", "0.1,0.9"]
 FR2_T = FR2_Q + ["0.9,0.1", "1.0,0.0", "0.0,1.0"]
-TEX_Q = ["ident", "cube", "gen"]
+TEX_Q = ["ident", "cube", "gen", "gen_static"]
 TEX_T = TEX_Q + ["mixed"]
 VOL_Q = ["uniform", "dominant", "onezero"]
 VOL_T = VOL_Q + ["geometric", "allbutone", "dup", "dirichlet"]
@@ -157,6 +157,10 @@ def tex_letters(kind, n, slot, k):
     if kind == "cube":
         return [cube[(1 + 5 * g + 7 * k + 11 * slot) % 24] for g in range(n)]
     gen = _pool("gen")
+    if kind == "gen_static":
+        # the same orientations in every snapshot (only the volumes change from one
+        # snapshot to the next): seed C10f
+        return [gen[(3 + 37 * g + 53 * slot) % len(gen)] for g in range(n)]
     if kind == "gen":
         return [gen[(3 + 37 * g + 101 * k + 53 * slot) % len(gen)] for g in range(n)]
     if kind == "mixed":
